@@ -116,9 +116,10 @@ func dynEqualsGen(dm *dynamic.Message, m proto.Message) bool {
 }
 
 func checkC18(e *core.Env) {
+	curEnv = e
 	e.SetRule("random messages of {test Message, HttpTrailer, Any, Struct, Timestamp, Empty, BytesValue} and dynamic messages of the same descriptors x adapters {ProtoCloner, CodecCloner, CloneFunc, CopyFunc} x operations {Clone, Copy into empty, Copy into fully populated destination, generated<->dynamic, mismatched / non-proto destinations}; oracle: equality (proto.Equal + deterministic bytes), source snapshot unchanged, address-disjointness walk, no residue; distinct = (adapter, type, operation, population class)")
 	e.Assume("cross-representation copying is required of the default strategy and copy-function adapters built on it; mismatch refusal is not required of the byte-level codec adapter")
-	n := e.N(800, 8000)
+	n := e.N(3000, 80000)
 	cl := cloners()
 	e.Cases("copy", n, func(i int, r *rand.Rand) {
 		cfg := cl[i%len(cl)]
